@@ -107,6 +107,9 @@ def replay_behaviour(arg):
                 what = 'a non-zero tensor entry violates the additive quantum-number rule'
             elif p['q0'] != [m['q0']] or p['qL'] != [m['qL']]:
                 what = f'boundary charges: model ({m["q0"]},{m["qL"]}) code ({p["q0"]},{p["qL"]})'
+            if what and what.startswith('boundary charges') and op in ('add', 'apply', 'create', 'from_vector'):
+                # the charges a fresh result starts with are what the code does (Sector.tla), not part of C02
+                return 'deviation', f'spec: after {op} (object {i}): {what}', done
             if what:
                 return 'violation', f'after {op} (object {i}): {what}', done
     return 'ok', '', done
@@ -131,6 +134,8 @@ def replay_sector(ctx):
         ctx.traces += 1 if verdict in ('ok', 'violation') else 0
         if verdict == 'machinery':
             raise RuntimeError(f'Sector replay: {detail}')
+        if verdict == 'deviation':
+            ctx.deviation(detail.split(' (object')[0])
         if verdict == 'violation':
             ops = [st['last']['op'] for _, st in behaviours[k]]
             ctx.violation('replay:' + detail.split(':')[0][:60] + ':' + detail.split(': ', 1)[-1][:60],
